@@ -38,8 +38,9 @@ Theorem C11_keys_known_is_incl : forall (c : search_class) (keys : list string),
   keys_known c keys = true <-> incl keys (serialised_keys c).
 Proof. exact keys_known_incl. Qed.
 
-(* history: the Drawer constructor as it was at the pinned commit did not read back (repaired by 6031051) *)
-Theorem C11_drawer_pinned_refuted :
+(* LEGACY (history): the Drawer constructor as it was at the pinned commit did not read back (repaired by 6031051);
+   the current one is covered by C11_all_searches *)
+Theorem C11_drawer_legacy_refuted :
   exists keys, incl keys (serialised_keys drawer_pinned) /\ reload_ok drawer_pinned keys = false.
 Proof. exact drawer_refuted. Qed.
 
@@ -111,8 +112,30 @@ Theorem C11_second_load : forall (classes : list search_class) (uf co : bool) (d
 Proof. exact second_load. Qed.
 
 (* ---- grid searches: one parent linked to exactly its cells ---- *)
-(* PARTIAL, code as pinned (id = text of .is_grid_search): the guard `wf ... false` demands distinct marker texts *)
-Theorem C11_grid_partial : forall (classes : list search_class) (co : bool) (dir : list folder),
+(* FULL, for the code as it is now (Gen.gs_id_uses_folder, read from the source on every run): every grid search
+   appears as one parent fit whose id is its folder name, linked to exactly its cell fits.  `wf` asks for loadable
+   outputs and distinct fit identifiers / grid-search folder names only. *)
+Theorem C11_grid : forall (classes : list search_class) (co : bool) (dir : list folder),
+  wf classes gs_id_uses_folder co dir ->
+  cells_disjoint gs_id_uses_folder co dir -> parent_files_consistent gs_id_uses_folder co dir ->
+  exists db, scrape classes gs_id_uses_folder co dir [] = Loaded db /\
+    forall g, In g (grids co dir) ->
+      (exists r, In r db /\ r_id r = folder_name g /\ r_grid r = true /\ r_parent r = None /\
+                 r_complete r = Some (f_completed g) /\ r_tag r = f_marker g /\ r_jsons r = f_jsons g) /\
+      (forall r', In r' db -> (r_parent r' = Some (folder_name g) <-> In (r_id r') (cell_ids co dir g))).
+Proof. exact grid_current. Qed.
+
+(* the source computes the grid-search id from the folder name (regression guard: does not compile otherwise) *)
+Theorem C11_grid_id_current : gs_id_uses_folder = true /\ forall g : folder, gs_id gs_id_uses_folder g = folder_name g.
+Proof. exact (conj current_grid_id_is_folder current_gs_id). Qed.
+
+(* the directory the pinned code could not load (two grid searches, one unique tag) loads with both parents *)
+Theorem C11_grid_shared_tag_loads : wf [] gs_id_uses_folder false two_grids /\
+  exists db, scrape [] gs_id_uses_folder false two_grids [] = Loaded db /\ map r_id (filter r_grid db) = ["aaa"; "bbb"].
+Proof. exact two_grids_current. Qed.
+
+(* LEGACY (history; repaired by d04d2bc): with id = text of .is_grid_search the same holds only under distinct marker texts ... *)
+Theorem C11_grid_legacy_partial : forall (classes : list search_class) (co : bool) (dir : list folder),
   wf classes false co dir -> cells_disjoint false co dir -> parent_files_consistent false co dir ->
   exists db, scrape classes false co dir [] = Loaded db /\
     forall g, In g (grids co dir) ->
@@ -121,26 +144,13 @@ Theorem C11_grid_partial : forall (classes : list search_class) (co : bool) (dir
       (forall r', In r' db -> (r_parent r' = Some (gs_id false g) <-> In (r_id r') (cell_ids co dir g))).
 Proof. exact (fun classes => grid_links classes false). Qed.
 
-(* REFUTED, code as pinned: loadable outputs, distinct fit ids, distinct grid-search folders -- and the load raises *)
-Theorem C11_grid_refuted :
+(* ... and distinct folders and fit ids did not suffice: the load raised *)
+Theorem C11_grid_legacy_refuted :
   exists dir,
     (forall f, In f (outputs false dir) -> loadable [] f) /\
     NoDup (flat_map ids_of (outputs false dir) ++ map folder_name (grids false dir)) /\
     scrape [] false false dir [] = Raised "IntegrityError".
 Proof. exact grid_refuted. Qed.
-
-(* FULL for the repaired code (id = folder name): distinct folders suffice *)
-Theorem C11_grid_fixed : forall (classes : list search_class) (co : bool) (dir : list folder),
-  wf classes true co dir -> cells_disjoint true co dir -> parent_files_consistent true co dir ->
-  exists db, scrape classes true co dir [] = Loaded db /\
-    forall g, In g (grids co dir) ->
-      (exists r, In r db /\ r_id r = gs_id true g /\ r_grid r = true /\ r_parent r = None /\
-                 r_complete r = Some (f_completed g) /\ r_tag r = f_marker g /\ r_jsons r = f_jsons g) /\
-      (forall r', In r' db -> (r_parent r' = Some (gs_id true g) <-> In (r_id r') (cell_ids co dir g))).
-Proof. exact (fun classes => grid_links classes true). Qed.
-
-Theorem C11_grid_id_is_folder_when_fixed : forall g : folder, gs_id true g = folder_name g.
-Proof. exact gs_id_true. Qed.
 
 (* the best fit of a grid search is a linked cell of maximal likelihood *)
 Theorem C11_grid_best : forall (db : list row) (gid : string) (b : row),
@@ -176,6 +186,6 @@ Proof. exact prefit_interrupted_harmless. Qed.
 Print Assumptions C11_all_searches.
 Print Assumptions C11_second_load.
 Print Assumptions C11_lossless.
-Print Assumptions C11_grid_fixed.
+Print Assumptions C11_grid.
 Print Assumptions C11_routes_agree.
 Print Assumptions C11_prefit_interrupted_harmless.
